@@ -128,7 +128,7 @@ def check(run, replay):
             return ("reported", "reported findings differ: model %s, cppcheck %s" % (sorted(set(texts)), sorted(set(rep))))
         return None
 
-    np_, nc = (14, 10) if quick else (150, 25)
+    np_, nc = (12, 8) if quick else (150, 25)
     fails = X.e2e(run, model, np_, nc, "end-to-end cppcheck runs (unmatchedSuppression set)", compare, want_nofail=False)
     for f in fails[:2]:
         key = "e2e:" + hashlib.sha1(repr((sorted(f["files"].items()), f["argv"])).encode()).hexdigest()[:12]
